@@ -22,3 +22,11 @@ add("C16","exploration",
     "Held on every PAUSE/RESUME cycle produced (about 1000 cycles and 9000 held requests per quick run): no request sent after a PAUSE reply reached a server before RESUME was issued, every held client completed after RESUME, no request failed; jitter hook inside wait_paused widens the lost-wake-up window and evidence counts how often a client entered wait_paused while a RESUME was in flight.",
     "Trusted: CLOCK_MONOTONIC shared by harness threads and mock threads; schedules sampled, not enumerated.",
     "runtime monitoring: happens-before oracle over client send / mock arrival / admin reply timestamps", "DESIGN.md 5 C16")
+add("C10","exploration",
+    "Held on every cancel produced: scripted phases (valid key while running, idle keys, stale key while another client runs on the same server connection, random keys, disconnected client's key, key used right after the transaction ended with and without a slow cleanup round trip) and concurrent cancel storms; oracle joins CancelRequest packets logged by the mock (target session and what it was running) with the harness's cancel log.",
+    "Trusted: mock cancel handling (a CancelRequest interrupts only a statement that is running, as PostgreSQL ignores cancels while idle); timing windows are sampled with a jitter hook before release().",
+    "runtime monitoring: CancelRequest log at mock backends joined with harness cancel log", "DESIGN.md 5 C10")
+add("C17","exploration",
+    "Held on every shutdown scenario produced (one real pgcat process each): idle clients get the administrator-command error, in-flight transactions with work that fits the timeout complete with correct rows, late non-admin logins are refused and admin logins admitted, process exits promptly once clients have left / within the bound / immediately on SIGTERM (waitpid in the parent).",
+    "Trusted: 'Got SIGINT' log line is used only to order login attempts after the signal was processed; session-mode clients are outside the property's wording.",
+    "runtime monitoring: parent-side waitpid + per-population client observations", "DESIGN.md 5 C17")
